@@ -392,6 +392,14 @@ class StateAnalysis:
                             removed.add((head.id, s_.id))
                 else:
                     notes.append((head, why))
+        for iff, head, skip_label in self._exit_guards(f, attr):
+            ok, why = self._is_j2_guard(f, head, iff, attr, dep, set())
+            if ok:
+                for s_, lab in head.succ:
+                    if lab == skip_label:
+                        removed.add((head.id, s_.id))
+            else:
+                notes.append((head, why))
         # write-free path search
         from collections import deque
         prev = {g.entry.id: None}
@@ -454,6 +462,12 @@ class StateAnalysis:
                             removed.add((head.id, s_.id))
         if not write_nodes:
             return False
+        for iff, head, skip_label in self._exit_guards(g_func, attr):
+            ok, _ = self._is_j2_guard(g_func, head, iff, attr, dep, set())
+            if ok:
+                for s_, lab in head.succ:
+                    if lab == skip_label:
+                        removed.add((head.id, s_.id))
         from collections import deque
         seen = {g.entry.id}
         dq = deque([g.entry])
@@ -564,13 +578,52 @@ class StateAnalysis:
         return ok
 
     def _guard_tests(self, f, attr):
-        """Tests of the If statements that enclose a bind of `attr` in f."""
+        """Tests of the If statements that enclose a bind of `attr` in f, or that decide by an early exit whether a bind is reached."""
         fi = self.info(f)
         tests = []
         for n in fi.cfg.nodes:
             if any(a == attr and k == "bind" for a, k in attr_writes(n, fi.selfname)) and n.stmt is not None:
                 tests += [iff.test for iff, _ in self._enclosing_ifs(f, n.stmt)]
+        tests += [iff.test for iff, _, _ in self._exit_guards(f, attr) if not any(iff.test is t for t in tests)]
         return tests
+
+    def _exit_guards(self, f, attr):
+        """If heads of f that do not enclose a bind of `attr` but decide whether one is reached: from exactly one of the two branches a
+        bind of attr can still be reached (`if valid: return` in front of the refresh).  [(If stmt, head node, label of the skip edge)]"""
+        memo = self.__dict__.setdefault("_exit_guard_memo", {})
+        key = (f, attr)
+        if key in memo:
+            return memo[key]
+        memo[key] = []
+        fi = self.info(f)
+        g = fi.cfg
+        binds = {n.id for n in g.nodes if any(a == attr and k == "bind" for a, k in attr_writes(n, fi.selfname))}
+        out = []
+        if binds:
+            def reaches(start):
+                seen, st = {start.id}, [start]
+                while st:
+                    x = st.pop()
+                    if x.id in binds:
+                        return True
+                    for s_, lab in x.succ:
+                        if s_.id not in seen and lab != "exc":
+                            seen.add(s_.id)
+                            st.append(s_)
+                return False
+            for h in g.nodes:
+                if h.kind != "if" or not isinstance(h.stmt, ast.If):
+                    continue
+                if any(b_ for b_ in binds if any(g.nodes[b_].stmt is x for x in ast.walk(h.stmt))):
+                    continue  # encloses a bind: handled as an enclosing guard
+                lab_reach = {}
+                for s_, lab in h.succ:
+                    if lab in ("true", "false"):
+                        lab_reach[lab] = reaches(s_)
+                if len(lab_reach) == 2 and lab_reach["true"] != lab_reach["false"]:
+                    out.append((h.stmt, h, "true" if not lab_reach["true"] else "false"))
+        memo[key] = out
+        return out
 
     def _feeds_only_guards(self, f, node, attr):
         tests = self._guard_tests(f, attr)
